@@ -12,6 +12,7 @@ Model/Lock.v inside Coq; the final pixels must equal the sequential application
 of all updates in the acquisition order the model derives.
 """
 import contextlib
+import shutil
 import io
 import os
 
@@ -357,6 +358,133 @@ def real_fork_stress(V, n_proc, n_upd):
     return n_proc * n_upd
 
 
+def multi_tan_case(rng):
+    """The multi-TAN tiler's own workers as the updaters: several tiny inputs that land in ONE tile, tiled with
+    MultiTanProcessor.tile(parallel > 1) under the scheduler.  Judged by the statement itself: at no moment two
+    holders of the tile's lock, and every input's pixels in the final tile (no model replay: a worker handles
+    several inputs, so actors are not updaters)."""
+    import filelock
+    from toasty.pyramid import PyramidIO
+    from toasty.image import Image
+    from toasty.multi_tan import MultiTanProcessor
+    from toasty.study import StudyTiling
+    n_img = rng.choice((3, 4, 5))
+    par = rng.choice((2, 2, 3))
+    fmt = rng.choice(("npy", "fits"))
+    base = common.workdir() / f"c10mt_{rng.randrange(1 << 30)}"
+    pio = PyramidIO(str(base), default_format=fmt)
+    tiling = StudyTiling(2000, 2000)
+    offs = [(8 + 12 * i, 5 + 9 * i) for i in range(n_img)]          # all inside tile (3, 0, 0), disjoint 4x4 patches
+
+    class _Img:
+        def __init__(self, v):
+            self._img = Image.from_array(np.full((4, 4), v, dtype=np.float32))
+            self.mode = self._img.mode
+            self.height = 4
+
+        def get_parity_sign(self):
+            return pio.get_default_vertical_parity_sign()
+
+        def update_into_maskable_buffer(self, *a):
+            return self._img.update_into_maskable_buffer(*a)
+
+    class _Coll:
+        def images(self):
+            for i in range(n_img):
+                yield _Img(100.0 + i)
+
+    class _Desc:
+        def __init__(self, i):
+            self.sub_tiling = tiling.compute_for_subimage(offs[i][0], offs[i][1], 4, 4)
+
+    orig_locks = {nm: getattr(filelock, nm) for nm in ("SoftFileLock", "FileLock", "UnixFileLock")
+                  if isinstance(getattr(filelock, nm, None), type)}
+    orig_read, orig_write = PyramidIO.read_image, PyramidIO.write_image
+    holders, overlaps, errors = [], [], []
+
+    def run(sched):
+        def sched_lock_class(orig):
+            class SchedLock(orig):
+                def acquire(self, timeout=None, poll_interval=None, *, poll_intervall=None, blocking=None, cancel_check=None):
+                    while True:
+                        lf = self.lock_file
+                        sched.custom_sync("TryAcq", stutter=lambda: os.path.exists(lf))
+                        try:
+                            r = orig.acquire(self, blocking=False)
+                        except filelock.Timeout:
+                            continue
+                        if holders:
+                            overlaps.append((sched.me().name, list(holders)))
+                        holders.append(sched.me().name)
+                        return r
+
+                def release(self, force=False):
+                    if self.is_locked and sched.me() is not sched.main and not sched.aborted:
+                        sched.custom_sync("Release")
+                        if sched.me().name in holders:
+                            holders.remove(sched.me().name)
+                        r = orig.release(self, force)
+                        sched.custom_sync("Leave")
+                        return r
+                    return orig.release(self, force)
+            return SchedLock
+        wrapped = {}
+        for nm, cls in orig_locks.items():
+            if cls not in wrapped:
+                wrapped[cls] = sched_lock_class(cls)
+            setattr(filelock, nm, wrapped[cls])
+
+        def read_image(self, p, *a, **kw):
+            if sched.me() is not sched.main:
+                sched.custom_sync("Read")
+            return orig_read(self, p, *a, **kw)
+
+        def write_image(self, p, image, *a, **kw):
+            if sched.me() is not sched.main:
+                sched.custom_sync("WBegin")
+            return orig_write(self, p, image, *a, **kw)
+        PyramidIO.read_image = read_image
+        PyramidIO.write_image = write_image
+        proc = MultiTanProcessor(_Coll())
+        proc._descs = [_Desc(i) for i in range(n_img)]
+        proc._tiling = tiling
+        proc._n_todo = n_img
+        proc.tile(pio, parallel=par)
+
+    length = rng.choice((40, 120, 300))
+
+    def chooser(enabled, stutter, kk):
+        if kk >= length:
+            return None
+        return rng.randrange(len(enabled))
+    sink = io.StringIO()
+    try:
+        with contextlib.redirect_stdout(sink), contextlib.redirect_stderr(sink):
+            outcome, val, S = detsched.run_under((), run, chooser=chooser, pass_sched=True)
+    finally:
+        for nm, cls in orig_locks.items():
+            setattr(filelock, nm, cls)
+        PyramidIO.read_image, PyramidIO.write_image = orig_read, orig_write
+    why = []
+    if outcome != "returned":
+        why.append(f"tile() did not return: {outcome} {val!r}")
+    crashed = [a.name for a in S.actors.values() if a is not S.main and a.exitcode not in (0, None)]
+    if crashed:
+        why.append(f"worker(s) {crashed} died")
+    if overlaps:
+        why.append(f"{overlaps[0][0]} acquired the tile's lock while {overlaps[0][1]} held it")
+    from toasty.pyramid import Pos
+    desc0 = _Desc(0)
+    pos = next(iter(desc0.sub_tiling.generate_populated_positions()))[0]
+    final = orig_read(pio, pos, default="none", format=fmt)
+    vals = set() if final is None else set(float(v) for v in np.unique(final.asarray()[np.isfinite(final.asarray())]))
+    missing = [i for i in range(n_img) if 100.0 + i not in vals]
+    if missing:
+        why.append(f"the pixels of input(s) {missing} are missing from the final tile {tuple(pos)}")
+    shutil.rmtree(base, ignore_errors=True)
+    return dict(n_img=n_img, par=par, fmt=fmt, why=why, chosen=[list(ch) for _e, ch in S.trace][:400], steps=len(S.trace))
+
+
 def run(ctx, V):
     rng = common.rng_for(ctx["seed"], "C10")
     quick = ctx["tier"] == "quick"
@@ -385,10 +513,22 @@ def run(ctx, V):
                                      chosen=[list(ch) for _e, ch in r["trace"]]),
                            "model replay; theorem lock_linearizable", dict(order=r["order"], why=why, locks=r["locks_left"]),
                            bool(why))
+    # the multi-TAN tiler's workers as updaters of one shared tile
+    n_mt = 0
+    for _ in range(40 if quick else 400):
+        srng = common.rng_for(rng.randrange(1 << 30), "C10mt")
+        r = multi_tan_case(srng)
+        n_mt += 1
+        hist[f"multi_tan/img{r['n_img']}/par{r['par']}/{r['fmt']}"] = hist.get(f"multi_tan/img{r['n_img']}/par{r['par']}/{r['fmt']}", 0) + 1
+        if r["why"]:
+            V.disagreement("C10 predicate under the scheduler: MultiTanProcessor.tile(parallel) with inputs sharing one tile",
+                           dict(n_img=r["n_img"], par=r["par"], fmt=r["fmt"], chosen=r["chosen"][:120]),
+                           "one holder at a time; every input's pixels in the final tile", dict(why=r["why"]), True)
+            break
     n_fork = real_fork_stress(V, 4 if quick else 8, 12 if quick else 50)
     samples = [dict(k=r["k"], fmt=r["fmt"], present=r["present"], order=r["order"], steps=len(r["trace"]),
                     first=[list(ch) for _e, ch in r["trace"][:8]]) for r in res[:3]]
-    return dict(evaluations=len(res) + 1, distinct_nontrivial=len(nontrivial), traces_validated_against_impl=len(terms),
+    return dict(evaluations=len(res) + 1 + n_mt, multi_tan_worker_cases=n_mt, distinct_nontrivial=len(nontrivial), traces_validated_against_impl=len(terms),
                 real_fork_updates=n_fork,
                 rule="k in {2,3,4} real update_image bodies on one tile (npy/fits, tile present or absent, disjoint or "
                      "overlapping rectangles, mixed format= arguments), schedules uniform or biased towards contending "
